@@ -316,11 +316,21 @@ INLINELOOP = (" Verif.Props.InlineLoop (faithful model of the inline dispatcher 
               "loop theorems hold for EVERY handler table meeting the contract RespOK, and real_table_meets_contract_partial shows the modelled recognisers meet it): ")
 SCANRULES = (" Verif.Props.ScanRules (faithful per-token state machines of MD003 MD022 MD024 MD025 MD026 MD036 MD040 MD041 MD042 MD045, real rule classes driven through a real "
              "PluginManager: 2.4 M comparisons thorough, 347 of 347 rule lines reached): ")
+REGENLEAF = (" Verif.Props.RegenLeaf (faithful model of the container-free Markdown regenerator: TransformToMarkdown.transform main loop, final-newline correction, "
+             "every leaf / inline / front-matter rehydrate handler, paragraph rehydrate_index in an object store; tied to the real transform on 340 k distinct real and "
+             "field-mutated streams, 68 k real exceptions at 27 call sites agreed): ")
 EXTRA2 = {
  "C01": [INLINELOOP + "inline_loop_terminates (turns <= number of inline start characters; fuel always sufficient), inline_loop_total (under the guard envOK and the contract the only "
          "errors are a handler's own; six excluded-point witnesses, one per contract clause, each replayed on the real loop with a stub registered in the real handler table). Tie: real loop "
          "vs model on all strings <= 5 over the inline alphabet x 9 environments (1.69 M cases thorough) and every one of 5.2 M recorded loop turns of real parses is a legal model transition."],
- "C02": [INLINELOOP + "inline_loop_conservation (text pieces and handler-consumed ranges tile the paragraph text exactly; nothing handled twice), inline_loop_content_partial "
+ "C08": [REGENLEAF + "regen_field_local (changing one style field of one leaf token — ATX hash count, fence character, thematic break text … — changes only that token's own "
+         "contribution to the regenerated text; regen_field_local_excluded shows the one field shape where it does not): the token-level statements mdX_fix_only_style transfer to text "
+         "for container-free documents."],
+ "C02": [REGENLEAF + "regen_total (no exception on streams satisfying the explicit guard WF, by a guard-to-context simulation; 12 regen_excluded_* witnesses, one per guard clause), "
+         "regen_concat / regen_concat_parts (the output is the concatenation of per-token contributions + final-newline correction), regen_blocks_compose, regen_paragraph_text / "
+         "regen_paragraph_document, regen_leaf_roundtrip (blank line, thematic break, ATX heading, paragraph, setext heading, closed fenced block: regenerating the tokens the block pass "
+         "produces gives back the lines — composes the LeafFields reassembly lemmas; stream-level witnesses for F-THORN, F-FENCE-TRAILWS, F-SETEXT-TRAILWS), regen_pragma_only_last.",
+         INLINELOOP + "inline_loop_conservation (text pieces and handler-consumed ranges tile the paragraph text exactly; nothing handled twice), inline_loop_content_partial "
          "(what the text tokens hold through Codec.encode, one-line texts)."],
  "C04": [INLINELOOP + "inline_loop_order (the inline token list only grows at its end; no two adjacent plain text tokens), real_table_order."],
  "C05": [INLINELOOP + "inline_loop_positions_partial and loop_tokens_positions (line/column at every turn, the position handed to each handler and the one used for text tokens = the true "
